@@ -89,7 +89,7 @@ def cut_loop():
     ast.fix_missing_locations(mod)
     g = dict(tdsmod.__dict__)
     g['logger'] = _Log()
-    exec(compile(mod, '<TDS.run loop, cut from current source>', 'exec'), g)
+    exec(compile(mod, '<repo:TDS.run loop, cut from current source>', 'exec'), g)
     _CUT = (g['_body'], g['_test'], g['_epilogue'], cuts)
     return _CUT
 
